@@ -80,10 +80,13 @@ Record anal := { a_method : bool; a_complex : list tkey; a_posnames : list (opti
 Definition subtle (an : anal) (k : tkey) : bool := existsb (tkey_eqb k) (a_complex an).
 
 (* parameters of one NameConverter run: the analysis and the two symbols found by _search_names
-   (None = the method does not mention it; recode passes a falsy value then) *)
-Record rwp := { p_anal : anal; p_rs : option nat; p_cs : option nat }.
+   (None = the method does not mention it; recode passes a falsy value then).  adapt_function hands recode only the
+   FIRST name found that denotes the function (rec_syms[0]); [p_alias] lists the other names of the source that
+   denote it too (recurse under a second alias, the function's own name): the rewriter leaves them alone (KF-29). *)
+Record rwp := { p_anal : anal; p_rs : option nat; p_cs : option nat; p_alias : list nat }.
 
 Definition is_sym (o : option nat) (i : nat) : bool := match o with Some j => Nat.eqb i j | None => false end.
+Definition is_alias (p : rwp) (x : name) : bool := match x with NUser i => existsb (Nat.eqb i) (p_alias p) | _ => false end.
 
 (* visit_Call's test: Some cn when func is the Name recurse_sym / call_next_sym *)
 Definition site (p : rwp) (f : expr) : option bool :=
@@ -283,8 +286,8 @@ Definition valid_stmt (s : stmt) : bool := match s with SExpr e | SAssign _ e | 
 
 (* binders the rewriting is hygienic for: source identifiers other than the recurse / call_next symbols *)
 Definition binder_ok (p : rwp) (x : name) : bool :=
-  match x with NUser i => negb (is_sym (p_rs p) i) && negb (is_sym (p_cs p) i) | _ => false end.
-Definition mention_ok (x : name) : bool := negb (is_tmp x).
+  match x with NUser i => negb (is_sym (p_rs p) i) && negb (is_sym (p_cs p) i) && negb (is_alias p x) | _ => false end.
+Definition mention_ok (p : rwp) (x : name) : bool := negb (is_tmp x) && negb (is_alias p x).
 
 Definition kw_named_ok (p : rwp) (o : option nat) : bool :=
   match o with
@@ -295,11 +298,11 @@ Definition kw_named_ok (p : rwp) (o : option nat) : bool :=
 (* [dom]: hygiene (no __TMP name, binders are plain identifiers: KF-26), and at every handled call site: no **
    (KF-10), keyword names are keyword-only parameters (KF-09), keyword names pairwise distinct; in a method no
    bare recurse name and no starred recurse call (KF-27); no call_next symbol outside a handled call (UsageError:
-   bare name, documented; starred call, KF-28). *)
+   bare name, documented; starred call, KF-28); no second name for the function (KF-29). *)
 Fixpoint dom (p : rwp) (e : expr) {struct e} : bool :=
   match e with
   | EConst _ => true
-  | EName x => mention_ok x && negb (cs_name p x) && negb (a_method (p_anal p) && name_eqb (rw_name p x) NOvld && negb (name_eqb x NOvld))
+  | EName x => mention_ok p x && negb (cs_name p x) && negb (a_method (p_anal p) && name_eqb (rw_name p x) NOvld && negb (name_eqb x NOvld))
   | EAttr e1 _ => dom p e1
   | EBin _ a b => dom p a && dom p b
   | EBool _ es => dom_list p es
@@ -386,7 +389,7 @@ Definition dom_stmt (p : rwp) (s : stmt) : bool :=
 Inductive sval := SInt (z : Z) | SStr (s : nat) | SNone | SBool (b : bool) | STy (t : nat) | SData (d : nat)
                 | SSeq (k : nat) (l : list sval).        (* k: 0 list, 1 tuple, 2 dict (items = 2-tuples) *)
 
-Inductive prim := PType | PSubtler | PRecurse | PCallNext | POvld | PMap | PCode.
+Inductive prim := PType | PSubtler | PRecurse | PCallNext | POvld | PMap | PCode | PUnusable.
 
 Inductive val :=
 | VInt (z : Z) | VStr (s : nat) | VNone | VBool (b : bool) | VTy (t : nat) | VData (d : nat)
@@ -394,7 +397,7 @@ Inductive val :=
 | VClos (ps : list name) (b : expr) (fr : list nat)      (* lambda: parameters, body, defining frame chain *)
 | VPrim (p : prim).
 
-Inductive exn := XNoMethod | XType | XName (x : name) | XUser (s : sval).
+Inductive exn := XNoMethod | XType | XName (x : name) | XUsage | XUser (s : sval).
 Inductive outcome (A : Type) := Val (a : A) | Raise (x : exn).
 Arguments Val {A} a. Arguments Raise {A} x.
 Definition res := outcome val.
@@ -436,6 +439,9 @@ Section Sem.
   Variable fmt : list sval -> sval.
   Variable ugl : nat -> option sval.                   (* the method's other global / parameter names *)
   Variable mself : sval.                               (* the method's self (used when a_method) *)
+  Variable reg : bool.   (* true: the method as registered (names the rewriter did not touch keep their module-level
+                            binding: ovld.recurse is an Unusable object); false: the original source with every name
+                            for the function bound to the documented callable *)
 
   Definition an := p_anal p.
 
@@ -448,6 +454,7 @@ Section Sem.
     | NSelf => if a_method an then Some (inj mself) else None
     | NUser i => if is_sym (p_rs p) i then Some (VPrim PRecurse)
                  else if is_sym (p_cs p) i then Some (VPrim PCallNext)
+                 else if is_alias p x then Some (VPrim (if reg then PUnusable else PRecurse))
                  else option_map inj (ugl i)
     | NTmp _ _ => None
     end.
@@ -579,6 +586,7 @@ Section Sem.
         if a_method an then match ar with v :: r => dispatch [] [v] r kw s | [] => (Raise XType, s) end
         else dispatch [] [] ar kw s
     | PMap | PCode => (Raise XType, s)
+    | PUnusable => (Raise XUsage, s)
     end.
 
   Definition evalT := list nat -> expr -> state -> option (res * state).
